@@ -231,6 +231,8 @@ class CommandManager(object):
         self.queue_lock_map = {}
         self.results = {}
         self.pause = set([])
+        # pause requests the solver has honoured (it sits in wait_for_cmd)
+        self.paused = set([])
 
     @on_root_proc
     def add_interface(self, callable, block=True):
@@ -276,6 +278,7 @@ class CommandManager(object):
         with self.qlock:
             while self.pause:
                 with self.plock:
+                    self.paused.update(self.pause)
                     self.plock.notify_all()
                 self.qlock.wait()
                 self.run_queued_commands()
@@ -314,8 +317,10 @@ class CommandManager(object):
         return True
 
     def wait(self):
+        ident = threading.current_thread().ident
         with self.plock:
-            self.plock.wait()
+            while ident in self.pause and ident not in self.paused:
+                self.plock.wait()
 
     def cont(self):
         ''' continue after a pause command '''
@@ -323,7 +328,9 @@ class CommandManager(object):
             logger.debug('pause/continue noy yet supported in parallel runs')
             return
         with self.plock:
-            self.pause.remove(threading.current_thread().ident)
+            ident = threading.current_thread().ident
+            self.pause.remove(ident)
+            self.paused.discard(ident)
             self.plock.notify()
             with self.qlock:
                 self.qlock.notify_all()
